@@ -71,8 +71,9 @@ template <class TT> static std::vector<TT> castvec(const IV& v) {
 template <> std::vector<Integer> castvec<Integer>(const IV& v) { return v; }
 
 static IV other_primes(size_t n) {   // a different coprime system (first n of the table), to warm caches with
-    static const int sp[] = {101, 103, 107, 109, 113, 127, 131, 137, 139, 149, 151, 157, 163, 167, 173, 179, 181, 191, 193, 197, 199, 211, 223, 227, 229, 233, 239, 241, 251, 257, 263, 269};
-    IV v; for (size_t i = 0; i < n && i < 32; ++i) v.push_back(Integer(sp[i])); return v;
+    static const int sp[] = {101, 103, 107, 109, 113, 127, 131, 137, 139, 149, 151, 157, 163, 167, 173, 179, 181, 191, 193, 197, 199, 211, 223, 227, 229, 233, 239, 241, 251, 257, 263, 269,
+        271, 277, 281, 283, 293, 307, 311, 313, 317, 331, 337, 347, 349, 353, 359, 367, 373, 379, 383, 389, 397, 401, 409, 419, 421, 431, 433, 439, 443, 449, 457, 461, 463, 467, 479, 487, 491, 499, 503, 509};
+    IV v; for (size_t i = 0; i < n && i < 72; ++i) v.push_back(Integer(sp[i])); return v;
 }
 
 // The constructor argument lives on the heap; right after construction it is overwritten and freed, so an object that kept a
@@ -121,7 +122,7 @@ static std::string run_int(const std::string& hist, IntMaker mk, const std::stri
     }
     else if (hist == "assigncc") {     // cold source assigned over a used system of the same length, then the source is changed
         aux = mk(P);
-        S = make_int(other_primes(n)); { IV o1(n, Integer(1)); S->RnsToRing(dump, o1); dump = S->product(); S->Reciprocals(); }
+        { IV O1 = other_primes(n); IV o1(O1.size(), Integer(1)); S = make_int(O1); S->RnsToRing(dump, o1); dump = S->product(); S->Reciprocals(); }
         *S = *aux;
         IRNS* o2 = make_int(O); *aux = *o2; delete o2;
     }
@@ -220,8 +221,8 @@ static std::string run_rns(const std::string& hist, const std::string& order, co
     }
     else if (hist == "assigncc") {     // cold source assigned over a used system of the same length; the source gets other primes afterwards
         aux = Mk::mk(D);
-        IV O1 = other_primes(n); Domains OD1(n); Elements OE1(n);
-        for (size_t i = 0; i < n; ++i) { OD1[i] = Dom(O1[i]); OD1[i].init(OE1[i], Integer(1)); }
+        IV O1 = other_primes(n); Domains OD1(O1.size()); Elements OE1(O1.size());
+        for (size_t i = 0; i < O1.size(); ++i) { OD1[i] = Dom(O1[i]); OD1[i].init(OE1[i], Integer(1)); }
         S = Mk::mk(OD1); S->RnsToRing(dump, OE1); S->Reciprocals();
         *S = *aux;
         Mk::set(aux, OD);
